@@ -251,7 +251,9 @@ impl Ctx {
         self.store_violation(v);
     }
 
-    /// Keeps at most PER_KEY witnesses per (api, clause), preferring the smallest inputs.
+    /// Keeps at most PER_KEY witnesses per (api, clause[, call site]), preferring the smallest inputs. Violations
+    /// that are identified by call site (C14's overflow findings) are kept per call site: a flood of hits at the
+    /// listed known sites must not evict a hit at a site that is not listed.
     fn store_violation(&mut self, v: Violation) {
         const PER_KEY: usize = 2;
         let size = v.input.to_string().len();
@@ -259,7 +261,7 @@ impl Ctx {
             .violations
             .iter()
             .enumerate()
-            .filter(|(_, w)| w.api == v.api && w.clause == v.clause)
+            .filter(|(_, w)| w.api == v.api && w.clause == v.clause && w.input.get("call_site") == v.input.get("call_site"))
             .map(|(i, _)| i)
             .collect();
         if same.iter().any(|&i| self.violations[i].input == v.input) {
